@@ -523,7 +523,9 @@ def avg(index, rep):
                   f"a percentage of {float(value):g} must be {'kept' if accepted else 'treated as impossible'} (impossible means > 1e5 or < -100); "
                   f"the helper returns {r}", loc=loc(IU, fn))
     asserts = [norm_src(a.test) for a in walk_no_nested(fn) if isinstance(a, ast.Assert)]
-    rep.check("0 <= weight <= 1" in asserts and any(a.startswith("sum(weights) <= 1.00001") for a in asserts), rule, "weights-asserted",
+    wparam = [a.arg for a in fn.args.args if a.arg not in ("self", "cls")][1]
+    rep.check(any(re.fullmatch(r"0 <= (\w+) <= 1", a) for a in asserts) and any(a.startswith(f"sum({wparam}) <= 1.00001") for a in asserts), rule,
+              "weights-asserted",
               "weights are no longer asserted to lie in [0,1] and to sum to 1 (needed for the mean to stay within the valid range)",
               loc=loc(IU, fn))
     if len(patterns) < 2 + 4 + 8 - 2:
